@@ -1,5 +1,5 @@
 """A small translator from a subset of Python (the arithmetic / bit-twiddling cores of han/*.py) to Lean 4 terms.
-Its output, lean/Amshan/GeneratedCode{Fcs,BackOff,P1,Hdlc,HdlcReader}.lean, is REGENERATED from the working tree on every
+Its output, lean/Amshan/GeneratedCode{Fcs,BackOff,P1,Hdlc,HdlcReader,Auto,Proto}.lean, is REGENERATED from the working tree on every
 run; Props/*Gen.lean prove each generated definition equal to the hand-written model, so for these functions
 the tie between model and code is a kernel-checked theorem about a mechanical translation of the source, not a
 sample.
@@ -56,7 +56,38 @@ Methods that CHANGE THEIR OBJECT (the state machine core of HdlcFrameReader) are
   * an `if` that only assigns attributes / locals is joined attribute by attribute as before; an `if` that calls
     another method is translated path by path (`if c then <answer after A; rest> else <answer after B; rest>`);
   * `x[-k]` is `x[len(x) - k]`, `x[-k:]` is `x.drop (len(x) - k)` (exactly Python's clamping, in Nat), and an index
-    into a suffix is an index into the list (`x[-1:][0]` and `x[-1]` are the same term)."""
+    into a suffix is an index into the list (`x[-1:][0]` and `x[-1]` are the same term).
+
+LOOPS WITH EARLY EXITS, EXCEPTIONS, LISTS OF OBJECTS (AutoDecoder.decode_message_payload, SmartMeterBaseProtocol.data_received):
+  * a `for` loop with `break` / `continue` / `return` in its body (or that an exception can leave) is the combinator
+    `GenRt.forLoop list state (fun state item => body) (fun state => what follows)` of lean/Amshan/GenRuntime.lean: the body
+    answers `Step.next state` (end of the body, `continue`), `Step.brk state` (`break`) or `Step.ret a` (the FUNCTION answers
+    a); the state is the names the body assigns, as for folds, pruned to what is needed (a name that is only assigned on
+    paths that leave the function is not part of it).  Loops nest; a loop without exits stays a fold;
+  * `Fn(raises=True)`: the function answers `Except PyExc ..`.  What can raise, each a STATEMENT of its own:
+    `a, b = TABLE[i]` for a configured constant table of tuples (`tables`: `match column[i]? with | some a => .. | none =>
+    IndexError`; `len(TABLE)` is configured too; a target `_` is not bound, and `_` may not be read anywhere) and
+    `v = f(x)` / `f(x)` / `return f(x)` for a local f that holds an OPAQUE CALLABLE (an object type with `objmethods:
+    "__call__": (.., "raises:<type>")`: `match f x with | .ok v => .. | .error e => <raise e>`).  An exception that nothing
+    catches makes the function answer `.error e` (through the enclosing loops: `Step.ret`).  `%` / `//` need a divisor that
+    is known to be positive (a literal, the item count of an enclosing range loop): ZeroDivisionError is not modelled;
+  * `try: A except <classes>: B` (one handler, no name / else / finally, one `try` per function): the clause is the
+    configured predicate `catch` (a parameter PyExc -> Bool; the class list itself is data, pinned by extract.py).  Where A
+    raises e the value is `if catch e then <B; what follows> else <raised further>`, in the environment of that place;
+  * `x if x else 0` / `x or 0` on an Optional[int] are `x.getD 0` (None and 0 are false); the private attribute
+    `self.__previous_success` is an attribute like any other (the AST keeps the unmangled name);
+  * lists of opaque objects (`list:<tag>`), loops over them, `[]`, `append`, `clear()`; a method that changes its object AND
+    answers a value (`objmethods: .. "mut:<type>"`, the lean function answers the pair): `v = x.m(..)` as a statement;
+  * effects with an argument: a ghost `(name, list type)` is a LOG, `self.message_received(msg)` appends msg to it;
+  * `for x in self.L:` whose body changes its items in place (`x.read(data)`) is `GenRt.forLoopMut`: an iteration also
+    answers its item as it is now, and what follows gets the list with the visited items replaced.  Inside the body L is
+    not available, except `self.L.clear()`: a flag of the state - Python's list iterator then finds the list empty, so the
+    loop ends with this iteration, and L is `[]` afterwards.  `self.a = x` for the loop variable x (a second name for the
+    object) is accepted as a MOVE only when `self.L.clear()` is the next statement and nothing changes x / self.a later
+    in the iteration (see `is_move`); the items of a list are taken to be pairwise distinct objects.  `return` inside such
+    a loop, re-binding L inside it, and `clear()` / `append` on the list a plain loop iterates over are rejected;
+  * the truth value of an object needs `register_object(.., truthy=True)` (no `__bool__` / `__len__`: checked in `generate`
+    for the reader classes): `if self._selected_reader:` is `is not None`."""
 from __future__ import annotations
 
 import ast
@@ -122,6 +153,13 @@ OPT_BASE = {"optint": "int", "optbool": "bool", "optlist": "list"}
 OPT_OF = {v: k for k, v in OPT_BASE.items()}
 MAX_SIZE = 4000          # nodes of one translated function: `if`s with a return duplicate what follows them
 OBJECTS = set()          # tags of opaque object types (register_object)
+TRUTHY = set()           # ... whose instances are always true
+LEAN_TY["list:list"] = "List (List Nat)"       # a list of byte strings (a recorded queue of payloads)
+BUILTIN_CALLS = {"len", "cast", "bool", "bytes", "bytearray", "max", "min", "range", "isinstance", "str", "int", "any", "all", "list"}
+
+
+class _NeedExit(Exception):
+    """raised while a loop is tried as a fold: the body leaves the loop early (return / an exception)"""
 
 # ---------------------------------------------------------------- the term language
 # ("lit", n) ("true",) ("false",) ("none",) ("nil",) ("var", id) ("const", lean text)
@@ -129,28 +167,54 @@ OBJECTS = set()          # tags of opaque object types (register_object)
 # ("app", head text, [args]) ("len", l) ("getD", l, i) ("take", l, n) ("drop", l, n) ("append1", l, x)
 # ("some", a) ("isSome", a) ("ogetD", a, default) ("tuple", [..]) ("range", lo, count)
 # ("rec", lean structure name, [(field, a) ..]) ("proj", a, "field" | "2.1")
+# ("nilof", list type) ("getq", l, i)  l[i]?   ("call", f, [args])  a callable value applied   ("ok", a) ("error", e)
 # statement positions only:
 # ("yield", [..])   the new state of the enclosing fold
 # ("letfold", out ids, in ids, item id, types, body, inits, coll, rest)
+# ("letloop", out ids, in ids, item id, types, body, inits, coll, rest, list id | None)   a loop with early exits
+# ("next", [..], item | None) ("brk", [..], item | None)   an iteration of the enclosing letloop ends / `break`
+# ("retn", a)   the function answers a (through the enclosing letloop)
+# ("mopt", scrutinee, id, some branch, none branch)  ("mexc", scrutinee, ok id, ok branch, error id, error branch)
 TRUE, FALSE, NONE, NIL = ("true",), ("false",), ("none",), ("nil",)
-DEFAULT_IR = {"int": ("lit", 0), "bool": FALSE, "list": NIL, "optint": NONE, "optbool": NONE, "optlist": NONE}
+DEFAULT_IR = {"int": ("lit", 0), "bool": FALSE, "list": NIL, "optint": NONE, "optbool": NONE, "optlist": NONE,
+              "list:list": ("nilof", "list:list")}
 
 V = namedtuple("V", "ir type unbound")      # value of a python name: term, type tag, "may be unbound here"
 
 
-def register_object(tag, lean_type):
+def register_object(tag, lean_type, truthy=False):
     """An opaque object type: its values are only built, changed and observed through configured constructors and
     methods (`Fn.constructors`, `Fn.objmethods`), which are mapped to Lean functions on `lean_type` - they are not
-    translated here.  `opt<tag>` is the Optional of it.  Where Python would raise on None (a method of None) the
-    translation is total and uses `default` (the theorems state the guards)."""
+    translated here.  `opt<tag>` is the Optional of it, `list:<tag>` a Python list of such objects.  Where Python
+    would raise on None (a method of None) the translation is total and uses `default` (the theorems state the
+    guards).  truthy: instances are always true (the class has neither `__bool__` nor `__len__`), so `if x:` on an
+    Optional object is `x is not None`; without it the truth value of an object is not translated."""
     paren = f"({lean_type})" if " " in lean_type else lean_type
     LEAN_TY[tag] = lean_type
     LEAN_TY["opt" + tag] = f"Option {paren}"
+    LEAN_TY["list:" + tag] = f"List {paren}"
     OPT_BASE["opt" + tag] = tag
     OPT_OF[tag] = "opt" + tag
     DEFAULT_IR[tag] = ("const", f"(default : {lean_type})")
     DEFAULT_IR["opt" + tag] = NONE
+    DEFAULT_IR["list:" + tag] = ("nilof", "list:" + tag)
     OBJECTS.add(tag)
+    TRUTHY.discard(tag)
+    if truthy:
+        TRUTHY.add(tag)
+
+
+def elem_type(t):
+    """type tag of the items of a list type (None: not a list)"""
+    if t == "list":
+        return "int"
+    if isinstance(t, str) and t.startswith("list:"):
+        return t[5:]
+    return None
+
+
+def nil_of(t):
+    return NIL if t == "list" else ("nilof", t)
 
 
 def lit(n):
@@ -174,6 +238,18 @@ def mk_bin(op, a, b):
             return lit(r)
     if op == "%" and b == lit(2):              # x % 2  is  x & 1 (python: also for a negative x)
         return mk_bin("&&&", a, lit(1))
+    if op == "-" and b[0] != "lit":            # (x + y) - y  is  x (the number of items of `range(y, x + y)`)
+        parts, x = [], a
+        while x[0] == "bin" and x[1] == "+":
+            parts.append(x[3])
+            x = x[2]
+        parts.append(x)
+        if len(parts) > 1 and b in parts:
+            parts.remove(b)
+            res = parts[-1]
+            for y in reversed(parts[:-1]):
+                res = mk_bin("+", res, y)
+            return res
     if op in COMMUTATIVE:                      # associative too: one left-nested chain, ordered, literals folded
         parts = []
         for x in (a, b):
@@ -280,6 +356,10 @@ def mk_ite(c, a, b):
         return mk_ite(mk_or([c, b[1]]), a, b[3])
     if b[0] == "ite" and b[3] == a:            # if c: x else: (if d: y else: x)   is   if c or not d: x else: y
         return mk_ite(mk_or([c, mk_not(b[1])]), a, b[2])
+    if c[0] == "eq" and ((a == c[2] and b == c[1]) or (a == c[1] and b == c[2])):
+        return b                               # if x == k: k else: x   is   x
+    if c[0] == "isSome" and a == ("ogetD", c[1], b):
+        return a                               # if x is not None: x else: d   (as a value with default d)   is   x.getD d
     return ("ite", c, a, b)
 
 
@@ -296,6 +376,8 @@ def mk_oget(a, d):
         return d
     if a[0] == "some":
         return a[1]
+    if a[0] == "ite" and (a[2] == NONE or a[3] == NONE or "some" in (a[2][0], a[3][0])):
+        return mk_ite(a[1], mk_oget(a[2], d), mk_oget(a[3], d))       # the default goes into the branches (one of them is known)
     return ("ogetD", a, d)
 
 
@@ -345,6 +427,18 @@ def children(e):
         return list(e[2])
     if t == "letfold":
         return [e[5]] + list(e[6]) + [e[7], e[8]]
+    if t == "letloop":
+        return [e[5]] + list(e[6]) + [e[7], e[8]]
+    if t in ("next", "brk"):
+        return list(e[1]) + ([e[2]] if e[2] is not None else [])
+    if t == "mopt":
+        return [e[1], e[3], e[4]]
+    if t == "mexc":
+        return [e[1], e[3], e[5]]
+    if t == "call":
+        return [e[1]] + list(e[2])
+    if t == "nilof":
+        return []
     if t == "rec":
         return [v for _, v in e[2]]
     if t == "proj":
@@ -394,6 +488,24 @@ def show(e, names):
         return t
     if t == "nil":
         return "([] : List Nat)"
+    if t == "nilof":
+        return f"([] : {LEAN_TY[e[1]]})"
+    if t == "getq":
+        return f"({a(e[1])}[{show(e[2], names)}]?)"
+    if t == "call":
+        return "(" + " ".join([a(e[1])] + [a(x) for x in e[2]]) + ")"
+    if t == "ok":
+        return f"(Except.ok {a(e[1])})"
+    if t == "error":
+        return f"(Except.error {a(e[1])})"
+    if t in ("next", "brk"):
+        st = "()" if not e[1] else show(("tuple", list(e[1])), names)
+        step = f"(Amshan.GenRt.Step.{t} {st if atomic(st) else '(' + st + ')'})"
+        return step if e[2] is None else f"({show(e[2], names)}, {step})"
+    if t == "retn":
+        return f"(Amshan.GenRt.Step.ret {a(e[1])})"
+    if t in ("mopt", "mexc", "letloop") and names is None:         # only for the canonical text
+        return f"({t} " + " ".join(show(c, names) for c in children(e)) + ")"
     if t == "var":
         return f"#{e[1]}" if names is None else names[e[1]]
     if t == "const":
@@ -461,6 +573,8 @@ def unify(ta, tb):
     if tb is None:
         return ta
     for x, y in ((ta, tb), (tb, ta)):
+        if x == "list" and elem_type(y) is not None:      # the literal `[]` (coerce rejects any other List Nat)
+            return y
         if x == "none":
             return y if y in OPT_BASE else OPT_OF.get(y) or _unsup(f"no optional of {y}")
         if x in OPT_BASE and OPT_BASE[x] == y:
@@ -477,12 +591,15 @@ def proj_path(j, n):
     return ".2" * j + (".1" if j < n - 1 else "")
 
 
+Cx = namedtuple("Cx", "levels brk cont handler")
+
+
 class Fn:
     """one Python function -> one Lean definition"""
 
     def __init__(self, name, obj, params, ret, mapping=None, mutates=None, calls=None, callfns=None, fuel=None,
                  record=None, pyret=None, ghosts=None, effects=None, selfcalls=None, objmethods=None, constructors=None,
-                 once=None):
+                 once=None, tparams="", raises=False, catch=None, tables=None):
         self.name = name                  # Lean name
         self.obj = obj                    # Python function object
         self.params = params              # [(lean name, lean type)]
@@ -504,8 +621,21 @@ class Fn:
         # ghosts: Boolean flags, false on entry; effects: python dotted callee (a statement `f()`) -> ghost that it
         # sets.  A call whose effect lies outside the translated state (the reader's input buffer is trimmed) is a
         # no-op on the state, and RECORDED: the flag is part of the answer.
-        self.ghosts = list(ghosts or [])
+        # a ghost (name, list type) is a LOG instead of a flag: an effect `f(x)` appends its argument (`[]` on entry)
+        self.ghost_types = {(g if isinstance(g, str) else g[0]): ("bool" if isinstance(g, str) else g[1]) for g in (ghosts or [])}
+        self.ghosts = list(self.ghost_types)
         self.effects = effects or {}
+        self.tparams = tparams            # lean binders before the parameters (`{α β : Type}`)
+        # raises: the function may raise: its answer is `Except PyExc <what it answers otherwise>` (`ret` is that whole
+        # type).  What can raise: a lookup in a configured table (IndexError) and the call of an opaque callable
+        # (objmethods: "__call__" with the result type "raises:<type>").  Arithmetic and list indexing stay total.
+        self.raises = raises
+        # catch: the lean predicate (a parameter: PyExc -> Bool) that stands for THE `except <classes>:` clause of the
+        # function (one `try` at most): an exception e is caught iff `catch e`.  The class list itself is data
+        # (extract.py: caughtPayload / caughtMessage).
+        self.catch = catch
+        # tables: python dotted name of a constant list of tuples -> {"len": lean expr, "cols": [(lean list, item type) | None ..]}
+        self.tables = tables or {}
         self.selfcalls = selfcalls or {}  # python dotted callee -> Fn of another translated method of the same object
         # type tag of an object -> {python method / property path: (lean function, [argument types], result type)};
         # result type "mut": the method changes its object (a statement `x.m(..)` is `x = lean x ..`); "__len__" is len(x);
@@ -517,9 +647,16 @@ class Fn:
         self.aux = []                     # auxiliary definitions (loops): (head lines, state ids, body term)
         self.hints = {}                   # binder id -> name hint
         self.tuples = {}                  # binder id of a component -> (binder id of the tuple, j, n)
-        self.in_for = False
         self.in_while = False
         self.order = []                   # python locals in order of first assignment
+        # the control context of the statement being translated: levels - the enclosing `for` loops, innermost last
+        # ("fold" | "exit" | "mut"); brk / cont - what `break` / `continue` mean here (functions of the environment);
+        # handler - the enclosing `try` (the context of the try statement, function of exception term and environment)
+        self.cx = Cx((), None, None, None)
+        self.positive = []                # terms known to be > 0 here (the item counts of the enclosing range loops)
+        self.readonly_items = []          # variables of the enclosing loops that do not write their items back
+        self.detached = {}                # list attribute that is being iterated by a loop that changes its items -> loop variable
+        self.mutloops = []                # ... those loops: (loop variable, list attribute, ast.For)
 
     # ---------------------------------------------------------------- binders
     def new_id(self, hint):
@@ -558,6 +695,12 @@ class Fn:
             return mk_lt(lit(0), ("len", mk_oget(e, NIL)))
         if t == "none":
             return FALSE
+        if elem_type(t) is not None:      # a list of objects
+            return mk_lt(lit(0), ("len", e))
+        if t in TRUTHY:                   # an object whose class defines neither __bool__ nor __len__
+            return TRUE
+        if t in OPT_BASE and OPT_BASE[t] in TRUTHY:
+            return mk_is_some(e)
         raise Unsupported(f"cannot use {t} as bool")
 
     def to_list(self, e, t):
@@ -572,6 +715,8 @@ class Fn:
         values keep their type: an int stored where the other values are bools is rejected, not converted)"""
         if te == want or want is None or te is None:
             return e
+        if e == NIL and te == "list" and elem_type(want) is not None:      # the literal `[]`
+            return nil_of(want)
         if want in OPT_BASE and te == "none":
             return NONE
         if want in OPT_BASE and te == OPT_BASE[want]:
@@ -584,6 +729,33 @@ class Fn:
         if te in OPT_BASE and want == OPT_BASE[te]:
             return mk_oget(e, DEFAULT_IR[want])
         return self.coerce(e, te, want)
+
+    def int_constant(self, d):
+        """value of `NAME`, `self.NAME`, `cls.NAME` or `ClassName.NAME` when that is a plain non-negative int constant of the
+        function's module / class (a literal that was given a name); None otherwise"""
+        f = unwrap_fn(self.obj)
+        f = inspect.unwrap(f) if callable(f) else f
+        glob = getattr(f, "__globals__", None)
+        if not glob:
+            return None
+        parts = d.split(".")
+        v = None
+        if len(parts) == 1:
+            v = glob.get(parts[0])
+        elif len(parts) == 2:
+            if parts[0] in ("self", "cls"):
+                qn = getattr(f, "__qualname__", "").split(".")
+                owner = glob.get(qn[0]) if len(qn) >= 2 else None
+            else:
+                owner = glob.get(parts[0])
+            if inspect.isclass(owner):
+                try:
+                    v = inspect.getattr_static(owner, parts[1])
+                except AttributeError:
+                    v = None
+        if isinstance(v, int) and not isinstance(v, bool) and v >= 0:
+            return int(v)
+        return None
 
     # ---------------------------------------------------------------- expressions
     def truth(self, n, env):
@@ -639,6 +811,8 @@ class Fn:
             raise Unsupported(f"constant {n.value!r}")
         d = dotted(n)
         if d is not None:
+            if d in self.detached:
+                raise Unsupported(f"{d} is read inside the loop that iterates over it and changes its items")
             if d in env:
                 if env[d].unbound:
                     raise Unsupported(f"local {d} may be unbound where it is read")
@@ -650,11 +824,14 @@ class Fn:
             om = self.object_member(d, env)
             if om is not None:                                     # a property of an object
                 recv, (lean, argts, rt) = om
-                if argts or rt == "mut":
+                if argts or rt.startswith(("mut", "raises:")):
                     raise Unsupported(f"method {d} used as a value")
                 if lean.startswith("const:"):                      # a constant of its class, read through the object
                     return ("const", lean[len("const:"):]), rt
                 return ("app", lean, [recv]), rt
+            k = self.int_constant(d)
+            if k is not None:                                      # a named integer constant of the class or module
+                return lit(k), "int"
             raise Unsupported(f"unknown name {d}")
         if isinstance(n, ast.BinOp):
             if type(n.op) not in BINOPS:
@@ -664,12 +841,21 @@ class Fn:
                 return NIL, "list"
             a, ta = self.expr(n.left, env)
             b, tb = self.expr(n.right, env)
+            if self.raises and isinstance(n.op, (ast.Mod, ast.FloorDiv)):
+                # ZeroDivisionError is not modelled: where exceptions matter, the divisor must be known to be positive -
+                # a literal, or the number of items of an enclosing `for .. in range(..)` loop (whose body runs only then)
+                d = self.to_int(b, tb)
+                if not ((d[0] == "lit" and d[1] > 0) or d in self.positive):
+                    raise Unsupported("division by a value that may be 0 in a function that can raise")
             return mk_bin(BINOPS[type(n.op)], self.to_int(a, ta), self.to_int(b, tb)), "int"
         if isinstance(n, ast.UnaryOp) and isinstance(n.op, ast.Not):
             return self.truth(n, env), "bool"
         if isinstance(n, ast.BoolOp):
             # `a and b` is one of its operands: a Bool only when all of them are
             if any(self.expr(v, env)[1] != "bool" for v in n.values):
+                if len(n.values) == 2:         # `a or b` is `a if a else b`, `a and b` is `b if a else a` (a is pure)
+                    x, y = n.values
+                    return self.expr(ast.IfExp(test=x, body=x, orelse=y) if isinstance(n.op, ast.Or) else ast.IfExp(test=x, body=y, orelse=x), env)
                 raise Unsupported("and / or of non-bool operands used as a value")
             return self.truth(n, env), "bool"
         if isinstance(n, ast.Compare):
@@ -689,8 +875,12 @@ class Fn:
             f = dotted(n.func)
             if n.keywords:
                 raise Unsupported(f"keyword arguments in call {f}")
+            if f == "len" and len(n.args) == 1 and dotted(n.args[0]) in self.tables and dotted(n.args[0]) not in env:
+                return ("const", "(" + self.tables[dotted(n.args[0])]["len"] + ")"), "int"
             if f == "len" and len(n.args) == 1:
                 a, ta = self.expr(n.args[0], env)
+                if elem_type(ta) is not None and ta != "list":
+                    return ("len", a), "int"
                 base = OPT_BASE.get(ta, ta)
                 if base in OBJECTS:                                # len(object) is its __len__
                     m = self.objmethods.get(base, {}).get("__len__")
@@ -737,8 +927,8 @@ class Fn:
             om = self.object_member(f, env) if f else None
             if om is not None:                                     # a method of an object that answers a value
                 recv, (lean, argts, rt) = om
-                if rt == "mut" or lean.startswith("const:"):
-                    raise Unsupported(f"call of the object-changing method / of the constant {f} inside an expression")
+                if rt.startswith(("mut", "raises:")) or lean.startswith("const:"):
+                    raise Unsupported(f"call of the object-changing / raising method / of the constant {f} inside an expression")
                 if len(argts) != len(n.args):
                     raise Unsupported(f"call {f}: {len(n.args)} arguments, {len(argts)} expected")
                 return ("app", lean, [recv] + [self.convert(*self.expr(x, env), want) for x, want in zip(n.args, argts)]), rt
@@ -824,6 +1014,8 @@ class Fn:
     def simple(self, body):
         """only assignments (and `if`s of such): the block is a function from environments to environments"""
         for st in body:
+            if self.raise_site(st) is not None:
+                return False
             if self.skipped(st) or isinstance(st, (ast.Assign, ast.AugAssign)):
                 continue
             if self.stmt_call(st) is not None or isinstance(st, ast.Assert):
@@ -835,6 +1027,19 @@ class Fn:
                     continue
             return False
         return True
+
+    def raise_site(self, st):
+        """Is the statement one that may raise (so that it is translated as a `match`, not as an assignment)?
+        "table": `a, b = TABLE[i]` for a configured table; "call": `x = f(..)`, `f(..)`, `return f(..)` for a plain
+        name f that is no known function (whether f is a callable object is checked when the statement is executed)."""
+        if isinstance(st, ast.Assign) and len(st.targets) == 1 and isinstance(st.value, ast.Subscript) and dotted(st.value.value) in self.tables:
+            return "table"
+        v = st.value if isinstance(st, (ast.Assign, ast.Expr, ast.Return)) else None
+        if self.raises and isinstance(v, ast.Call) and isinstance(v.func, ast.Name):
+            f = v.func.id
+            if f not in BUILTIN_CALLS and f not in self.callfns and f not in self.calls and f not in self.constructors:
+                return "call"
+        return None
 
     def state_names(self):
         """what a call of another method of the object may assign: the mutated attributes and the ghosts"""
@@ -853,7 +1058,7 @@ class Fn:
             return ["$" + self.effects[f]]
         if "." in f:
             recv, m = f.rsplit(".", 1)
-            if m in ("append", "clear") or any(ms.get(m, ("", [], ""))[2] == "mut" for ms in self.objmethods.values()):
+            if m in ("append", "clear") or any(ms.get(m, ("", [], ""))[2].startswith("mut") for ms in self.objmethods.values()):
                 return [recv]
         return None
 
@@ -865,8 +1070,16 @@ class Fn:
             d = None
             if isinstance(x, ast.Assign):
                 d = dotted(x.targets[0])
+                if isinstance(x.targets[0], ast.Tuple):            # `a, b = TABLE[i]`
+                    for el in x.targets[0].elts:
+                        if isinstance(el, ast.Name) and el.id != "_" and el.id not in res:
+                            res.append(el.id)
             elif isinstance(x, ast.AugAssign):
                 d = dotted(x.target)
+            if isinstance(x, ast.Assign) and isinstance(x.value, ast.Call) and dotted(x.value.func) and "." in dotted(x.value.func):
+                recv, m = dotted(x.value.func).rsplit(".", 1)      # `v = x.m(..)` for a method that changes x and answers a value
+                if any(ms.get(m, ("", [], ""))[2].startswith("mut:") for ms in self.objmethods.values()) and recv not in res:
+                    res.append(recv)
             if isinstance(x, ast.Assign) and isinstance(x.value, ast.Call) and dotted(x.value.func) in self.selfcalls:
                 for g in self.state_names():
                     if g not in res:
@@ -917,19 +1130,79 @@ class Fn:
                 raise Unsupported(f"assignment target {ast.dump(target)[:40]}")
             if d == "self" or (d in self.mapping and d not in env):
                 raise Unsupported(f"assignment to {d}")
+            if d in self.detached:
+                raise Unsupported(f"{d} is re-bound inside the loop that iterates over it and changes its items")
+            if any(d == v for v, _, _ in self.mutloops):
+                raise Unsupported(f"the variable {d} of a loop that changes its items is assigned")
+            mv = self.mut_value_call(value, env) if isinstance(value, ast.Call) else None
             if isinstance(value, ast.Call) and dotted(value.func) in self.selfcalls:
                 env, e, te = self.selfcall(value, env)             # x = self.method(..)
                 if te is None:
                     raise Unsupported(f"{d} = {dotted(value.func)}(..), which returns None")
+            elif mv is not None:                                   # v = x.m(..): m changes x and answers a value
+                tgt, res, tbase, te = mv
+                if tgt == d:
+                    raise Unsupported(f"{d} = {d}.m(..) for an object-changing method")
+                env = self.assign(tgt, mk_proj(res, "1"), tbase, env)
+                e = mk_proj(res, "2")
             else:
                 e, te = self.expr(value, env)
             dv = dotted(value)
-            if te == "list" and self.appends and (isinstance(value, ast.Name) or dv in self.mutates):
+            if elem_type(te) is not None and (isinstance(value, ast.Name) or dv in self.mutates) and (d in self.appended or dv in self.appended):
                 raise Unsupported(f"{d} = {dv}: two names for one list that may be changed in place")
-            if OPT_BASE.get(te, te) in OBJECTS and self.inplace and dv is not None:
+            if OPT_BASE.get(te, te) in OBJECTS and self.inplace and dv is not None and not self.is_move(d, dv, st):
                 raise Unsupported(f"{d} = {dv}: two names for one object that may be changed in place")
             env = self.assign(d, e, te, env)
         return env
+
+    def mut_value_call(self, call, env):
+        """`x.m(args)` for a configured method with the result type "mut:<type>" (it changes x and answers a value: the
+        lean function answers the pair): (python name of x, the pair as a term, type of x, type of the value), else None"""
+        f = dotted(call.func) or ""
+        if "." not in f or self.object_holder(f, env) is None:
+            return None
+        om = self.object_member(f, env)
+        recv, (lean, argts, rt) = om
+        if not rt.startswith("mut:"):
+            return None
+        tgt = self.object_holder(f, env)[0]
+        if call.keywords or len(argts) != len(call.args):
+            raise Unsupported(f"call {f}: {len(call.args)} arguments, {len(argts)} expected")
+        if tgt not in self.mutates and (tgt in self.mapping or "." in tgt):
+            raise Unsupported(f"{f}: changes an object that is not a local or a mutated attribute")
+        if tgt in self.readonly_items:
+            raise Unsupported(f"{f}: changes an item of a list that the loop does not write back")
+        args = [self.convert(*self.expr(x, env), want) for x, want in zip(call.args, argts)]
+        return tgt, ("app", lean, [recv] + args), OPT_BASE.get(env[tgt].type, env[tgt].type), rt[4:]
+
+    def is_move(self, d, dv, st):
+        """`self.a = x` where x is the variable of an enclosing loop over the list attribute L whose items the loop
+        changes: a second name for the object - accepted as a MOVE out of the list when
+          * the next statement of the same block is `L.clear()` (the list gives up its reference at once: no alias
+            outlives the statement; a loop that goes on after that is rejected, see do_for_exit),
+          * no object-changing method is called on x or on self.a later in the body of that loop (by source
+            position), nor anywhere inside an inner loop that contains the assignment (which could repeat).
+        The items of a list are taken to be pairwise distinct objects."""
+        hit = [(v, L, loop) for v, L, loop in self.mutloops if v == dv]
+        if not hit or d not in self.mutates:
+            return False
+        _, L, loop = hit[-1]
+        nxt = [x for x in self.following.get(id(st), []) if not self.skipped(x)]
+        if not (nxt and isinstance(nxt[0], ast.Expr) and isinstance(nxt[0].value, ast.Call) and dotted(nxt[0].value.func) == L + ".clear"):
+            return False
+        muts = {m for ms in self.objmethods.values() for m, sig in ms.items() if sig[2].startswith("mut")}
+        def changing(x):
+            f = dotted(x.func) if isinstance(x, ast.Call) else None
+            return f is not None and "." in f and f.rsplit(".", 1)[0] in (d, dv) and f.rsplit(".", 1)[1] in muts
+        pos = (st.lineno, st.col_offset)
+        for x in ast.walk(loop):
+            if changing(x) and (x.lineno, x.col_offset) > pos:
+                return False
+        for inner in ast.walk(loop):
+            if inner is not loop and isinstance(inner, (ast.For, ast.While)) and any(y is st for y in ast.walk(inner)):
+                if any(changing(x) for x in ast.walk(inner)):
+                    return False
+        return True
 
     def exec_call(self, call, env):
         """the environment after a statement `f(..)` that changes a variable (see stmt_call)"""
@@ -939,35 +1212,57 @@ class Fn:
         if f in self.selfcalls:
             return self.selfcall(call, env)[0]
         if f in self.effects:
+            g = self.effects[f]
+            gt = self.ghost_types[g]
+            if gt != "bool":                                       # a log: the argument is appended
+                if len(call.args) != 1:
+                    raise Unsupported(f"call {f} with other than one argument")
+                x = self.convert(*self.expr(call.args[0], env), elem_type(gt))
+                return self.assign("$" + g, ("append1", env["$" + g].ir, x), gt, env)
             if call.args:
                 raise Unsupported(f"call {f} with arguments")
-            return self.assign("$" + self.effects[f], TRUE, "bool", env)
+            return self.assign("$" + g, TRUE, "bool", env)
         tgt, m = f.rsplit(".", 1)
+        if tgt in self.detached:
+            # the list that a loop is iterating over (and whose items it changes): `clear()` is recorded in a flag - the
+            # iterator finds the list empty, so the loop ends with this iteration (see do_for_exit); nothing else
+            if m != "clear" or call.args:
+                raise Unsupported(f"{f} inside the loop that iterates over {tgt} and changes its items")
+            return self.assign("$clr:" + tgt, TRUE, "bool", env)
         if tgt in env and not env[tgt].unbound and OPT_BASE.get(env[tgt].type, env[tgt].type) in OBJECTS:
             om = self.object_member(f, env)
-            if om is None or om[1][2] != "mut":
+            if om is None or not om[1][2].startswith("mut"):
                 raise Unsupported(f"statement call {f}")
             if tgt not in self.mutates and (tgt in self.mapping or "." in tgt):
                 raise Unsupported(f"{f}: changes an object that is not a local or a mutated attribute")
-            recv, (lean, argts, _) = om
+            if tgt in self.readonly_items:
+                raise Unsupported(f"{f}: changes an item of a list that the loop does not write back")
+            recv, (lean, argts, rt) = om
             if len(argts) != len(call.args):
                 raise Unsupported(f"call {f}: {len(call.args)} arguments, {len(argts)} expected")
             args = [self.convert(*self.expr(x, env), want) for x, want in zip(call.args, argts)]
-            return self.assign(tgt, ("app", lean, [recv] + args), OPT_BASE.get(env[tgt].type, env[tgt].type), env)
+            res = ("app", lean, [recv] + args)
+            if rt.startswith("mut:"):                              # the value it answers is dropped
+                res = mk_proj(res, "1")
+            return self.assign(tgt, res, OPT_BASE.get(env[tgt].type, env[tgt].type), env)
         if m not in ("append", "clear"):
             raise Unsupported(f"statement call {f}")
         # x.append(v), x.clear() of a list: a local, or a mutated attribute (its final value is answered)
         if tgt not in env or (tgt in self.mapping and tgt not in self.mutates):
             raise Unsupported(f"{m} to {tgt}, which is not a local")
         l, tl = self.expr(call.func.value, env)
-        if tl != "list":
+        if elem_type(tl) is None:
             raise Unsupported(f"{m} to a {tl}")
         if m == "clear":
             if call.args:
                 raise Unsupported("clear with arguments")
-            return self.assign(tgt, NIL, "list", env)
+            return self.assign(tgt, nil_of(tl), tl, env)
         if len(call.args) != 1:
             raise Unsupported("append with other than one argument")
+        if tl != "list":
+            if any(tgt == L for _, L, _ in self.mutloops) or elem_type(tl) in OBJECTS and self.inplace:
+                raise Unsupported(f"append of an object to {tgt} in a function that changes objects in place")
+            return self.assign(tgt, ("append1", l, self.convert(*self.expr(call.args[0], env), elem_type(tl))), tl, env)
         return self.assign(tgt, ("append1", l, self.to_int(*self.expr(call.args[0], env))), "list", env)
 
     def state_term(self, env):
@@ -1056,6 +1351,8 @@ class Fn:
         return env
 
     def ret_tag(self):
+        if self.raises and self.pyret is not None:
+            return self.pyret                  # (`ret` is the whole `Except PyExc ..` type)
         for tag, ty in LEAN_TY.items():
             if ty == self.ret:
                 return tag
@@ -1089,12 +1386,141 @@ class Fn:
             e, te = self.expr(value, env)
         return self.final_state(env, self.coerce(e, te, self.pyret))
 
+    def answer(self, t):
+        """what the function answers, as the value of the statement that is being translated: through the enclosing
+        loops (`Step.ret`), and as `Except.ok` when the function may raise"""
+        if self.raises:
+            t = ("ok", t)
+        return self.leave(t, len(self.cx.levels))
+
+    def leave(self, t, n):
+        """t, a value of the function (or of an enclosing statement), seen from inside the n innermost loops"""
+        levels = self.cx.levels[len(self.cx.levels) - n:] if n else ()
+        if "fold" in levels:
+            raise _NeedExit()
+        if "mut" in levels:
+            raise Unsupported("return / uncaught exception inside a loop that changes the items of its list")
+        for _ in levels:
+            t = ("retn", t)
+        return t
+
+    def raise_term(self, e, env):
+        """the value of the statement when the exception e (a term of type PyExc) is raised here: the handler of the
+        enclosing `try`, else the function answers `Except.error e`"""
+        h = self.cx.handler
+        if h is None:
+            if not self.raises:
+                raise Unsupported("an exception can be raised in a function that is configured not to raise")
+            return self.leave(("error", e), len(self.cx.levels))
+        hcx, fn = h
+        here, self.cx = self.cx, hcx
+        try:
+            t = fn(e, env)
+        finally:
+            self.cx = here
+        return self.leave(t, len(here.levels) - len(hcx.levels))
+
+    def bind_call(self, call, env, hint, cont):
+        """`f(args)` for a local f that holds an opaque callable which may raise (objmethods: "__call__" with the result
+        type "raises:<type>"): `match f args with | .ok v => cont(v, type, env) | .error e => <raise e>`"""
+        f = call.func.id
+        if call.keywords:
+            raise Unsupported(f"keyword arguments in call {f}")
+        if f not in env or env[f].unbound:
+            raise Unsupported(f"call {f}")
+        sig = self.objmethods.get(env[f].type, {}).get("__call__")
+        if sig is None or not sig[2].startswith("raises:"):
+            raise Unsupported(f"call {f}")
+        lean, argts, rt = sig
+        if len(argts) != len(call.args):
+            raise Unsupported(f"call {f}: {len(call.args)} arguments, {len(argts)} expected")
+        args = [self.convert(*self.expr(x, env), want) for x, want in zip(call.args, argts)]
+        scrut = ("app", lean, [env[f].ir] + args) if lean else ("call", env[f].ir, args)
+        vid, eid = self.new_id(hint), self.new_id("e")
+        return ("mexc", scrut, vid, cont(("var", vid), rt[len("raises:"):], env), eid, self.raise_term(("var", eid), env))
+
+    def do_table(self, st, rest, env, k):
+        """`a, b = TABLE[i]` for a configured constant table of tuples: a, b are the items i of its columns.  Out of
+        range: IndexError (`match column[i]? with | some a => .. | none => <raise IndexError>`).  A target named `_` is
+        not bound (reading it is rejected)."""
+        tab = self.tables[dotted(st.value.value)]
+        if not self.raises:
+            raise Unsupported("a table lookup in a function that is configured not to raise")
+        target = st.targets[0]
+        if not (isinstance(target, ast.Tuple) and all(isinstance(x, ast.Name) for x in target.elts) and len(target.elts) == len(tab["cols"])):
+            raise Unsupported("a table row must be unpacked into one name per column")
+        if isinstance(st.value.slice, ast.Slice):
+            raise Unsupported("slice of a table")
+        idx = self.to_int(*self.expr(st.value.slice, env))
+        err = self.raise_term(("const", "PyExc.indexError"), env)
+        used = [(x.id, col) for x, col in zip(target.elts, tab["cols"]) if x.id != "_"]
+        if any(col is None for _, col in used):
+            raise Unsupported("a column of the table that is not configured is read")
+        if any(n in self.mapping or n in self.mutates for n, _ in used):
+            raise Unsupported("a table row is unpacked into a parameter")
+        if not used:                           # (`_` is never read: see term)
+            return mk_ite(mk_lt(idx, ("const", "(" + tab["len"] + ")")), self.block(rest, env, k), err)
+
+        def go(j, env):
+            if j == len(used):
+                return self.block(rest, env, k)
+            name, (lean, t) = used[j]
+            vid = self.new_id(self.lname(name))
+            env2 = dict(env)
+            env2[name] = V(("var", vid), t, False)
+            return ("mopt", ("getq", ("const", lean), idx), vid, go(j + 1, env2), err)
+        return go(0, env)
+
+    def do_try(self, st, rest, env, k):
+        """`try: A except <classes>: B` (one handler, no name, no else / finally).  The except clause is the configured
+        predicate `catch` (one `try` per function): where A raises e (a table lookup, the call of an opaque callable) the
+        value is `if catch e then <B; what follows the try> else <e is raised to the outside>`, in the environment of that
+        place - what A assigned before stays assigned, as in Python."""
+        if len(st.handlers) != 1 or st.orelse or st.finalbody:
+            raise Unsupported("try with other than one except clause / with else / finally")
+        h = st.handlers[0]
+        if h.name is not None:
+            raise Unsupported("except .. as name")
+        if self.catch is None:
+            raise Unsupported("try in a function without a configured except clause")
+        outer = self.cx
+
+        def after(e):                                              # what follows the try statement, outside of it
+            here, self.cx = self.cx, outer
+            try:
+                return self.block(rest, e, k)
+            finally:
+                self.cx = here
+
+        def handler(exc, e):                                       # runs in the context `outer`
+            return mk_ite(("app", self.catch, [exc]), self.block(h.body, e, lambda e2: self.block(rest, e2, k)), self.raise_term(exc, e))
+        self.cx = outer._replace(handler=(outer, handler))
+        try:
+            return self.block(st.body, env, after)
+        finally:
+            self.cx = outer
+
     def block(self, body, env, k):
         """the value of running `body` in `env` and then the continuation `k` (a function of the environment)"""
         for pos, st in enumerate(body):
             rest = body[pos + 1:]
             if self.skipped(st):
                 continue
+            site = self.raise_site(st)
+            if site == "table":
+                return self.do_table(st, rest, env, k)
+            if site == "call" and isinstance(st, ast.Assign):
+                target = st.targets[0]
+                if not isinstance(target, ast.Name) or target.id in self.mapping or target.id in self.mutates:
+                    raise Unsupported("the result of a call that may raise must be assigned to a local")
+                return self.bind_call(st.value, env, self.lname(target.id),
+                                      lambda v, t, e: self.block(rest, self.assign(target.id, v, t, e), k))
+            if site == "call" and isinstance(st, ast.Expr):
+                return self.bind_call(st.value, env, "_v", lambda v, t, e: self.block(rest, e, k))
+            if site == "call" and isinstance(st, ast.Return):
+                if not (self.mutates or self.ghosts):
+                    return self.bind_call(st.value, env, "v", lambda v, t, e: self.answer(self.coerce(v, t, self.ret_tag())))
+                return self.bind_call(st.value, env, "v", lambda v, t, e: self.answer(self.final_state(e, self.coerce(v, t, self.pyret))))
             if self.simple([st]):
                 env = self.exec_simple([st], env)
                 continue
@@ -1102,13 +1528,21 @@ class Fn:
                 c = self.truth(st.test, env)
                 return mk_ite(c, self.block(st.body + rest, env, k), self.block(st.orelse + rest, env, k))
             if isinstance(st, ast.Return):
-                if self.in_for:
-                    raise Unsupported("return inside a for loop")
                 if self.mutates or self.ghosts:
-                    return self.do_return(st.value, env)
+                    return self.answer(self.do_return(st.value, env))
                 if st.value is None:
-                    return self.coerce(NONE, "none", self.ret_tag())
-                return self.coerce(*self.expr(st.value, env), self.ret_tag())
+                    return self.answer(self.coerce(NONE, "none", self.ret_tag()))
+                return self.answer(self.coerce(*self.expr(st.value, env), self.ret_tag()))
+            if isinstance(st, ast.Break):
+                if self.cx.brk is None:
+                    raise Unsupported("break outside a for loop")
+                return self.cx.brk(env)
+            if isinstance(st, ast.Continue):
+                if self.cx.cont is None:
+                    raise Unsupported("continue outside a for loop")
+                return self.cx.cont(env)
+            if isinstance(st, ast.Try):
+                return self.do_try(st, rest, env, k)
             if isinstance(st, ast.For):
                 return self.do_for(st, rest, env, k)
             if isinstance(st, ast.While):
@@ -1124,7 +1558,7 @@ class Fn:
         body term; it calls self.leaf(env) where an iteration ends.  The types of the state are those on entry,
         widened (int -> Option int, ...) or found (unbound on entry) from what an iteration leaves."""
         types = {d: (env[d].type if d in env else None) for d in state}
-        for _ in range(4):
+        for _ in range(6):
             ids = {d: self.new_id(self.lname(d)) for d in state}
             benv = dict(env)
             for d in state:
@@ -1151,45 +1585,104 @@ class Fn:
             finally:
                 self.leaf = saved
             if seen == types:
-                if any(t is None for t in types.values()):
-                    raise Unsupported("a loop variable whose type cannot be found")
+                dead = [d for d in state if types[d] is None]
+                if dead:
+                    # not bound on entry and not bound where an iteration ends (assigned only on paths that leave the
+                    # function): not part of the state; it stays unbound after the loop
+                    if any(d in env for d in dead):
+                        raise Unsupported("a loop variable whose type cannot be found")
+                    state[:] = [d for d in state if d not in dead]
+                    types = {d: t for d, t in types.items() if d not in dead}
+                    continue
                 return ids, types, body
             types = seen
         raise Unsupported("the types of the loop state do not settle")
 
-    def do_for(self, st, rest, env, k):
-        """`for x in coll: body` without break / continue / return: a left fold.  State: the names assigned in the
-        body (first-assignment order of the function), pruned afterwards to those that are needed."""
-        if st.orelse:
-            raise Unsupported("for-else")
-        if not isinstance(st.target, ast.Name):
-            raise Unsupported("for target")
-        if any(isinstance(x, (ast.Break, ast.Continue)) for s2 in st.body for x in ast.walk(s2)):
-            raise Unsupported("break / continue")
-        tgt = st.target.id
+    def loop_coll(self, st, env):
+        """(the collection as a term, type of an item) of `for x in <range(..) | list>`"""
         it = st.iter
         if isinstance(it, ast.Call) and dotted(it.func) == "range":
             if it.keywords or not 1 <= len(it.args) <= 2:
                 raise Unsupported("range with a step")
             args = [self.to_int(*self.expr(a, env)) for a in it.args]
             lo, hi = (lit(0), args[0]) if len(args) == 1 else args
-            coll = ("range", lo, hi if lo == lit(0) else mk_bin("-", hi, lo))      # start and number of items
-        else:
-            e, te = self.expr(it, env)
-            if te != "list":
-                raise Unsupported("for over a non-list")
-            coll = e
-        names = self.assigned(st.body)
+            return ("range", lo, hi if lo == lit(0) else mk_bin("-", hi, lo)), "int"      # start and number of items
+        e, te = self.expr(it, env)
+        if elem_type(te) is None:
+            raise Unsupported("for over a non-list")
+        return e, elem_type(te)
+
+    def loop_names(self, body, tgt):
+        """the state of a loop: the names its body may assign, in the order of first assignment in the function (the
+        list L that an enclosing loop iterates over while changing its items is represented by its flag `$clr:L`)"""
+        names = self.assigned(body)
         state = [d for d in self.order if d in names and d != tgt]
+        return [("$clr:" + d if d in self.detached else d) for d in state]
+
+    def do_for(self, st, rest, env, k):
+        """`for x in coll: body`.  Without break / continue / return (and without an exception that can leave it): a
+        left fold; else a loop with early exits (do_for_exit)."""
+        if st.orelse:
+            raise Unsupported("for-else")
+        if not isinstance(st.target, ast.Name):
+            raise Unsupported("for target")
+        mut = self.changes_items(st, env)
+        L = dotted(st.iter)
+        if L is not None and any(isinstance(x, ast.Call) and dotted(x.func) in (L + ".clear", L + ".append") for x in ast.walk(st)):
+            # the list that is iterated over is changed in place by the body: python's iterator sees that.  Handled (for
+            # `clear()`) by the translation of loops that change their items; rejected otherwise
+            if not (L in self.mutates and elem_type(self.mutates[L][1]) in OBJECTS):
+                raise Unsupported(f"{L} is changed in place by the loop that iterates over it")
+            mut = True
+        if not mut and not self.early_exit(st):
+            cx = self.cx
+            try:
+                return self.do_for_fold(st, rest, env, k)
+            except _NeedExit:                  # an exception can leave the loop
+                if "fold" in cx.levels:
+                    raise
+                self.cx = cx
+        if self.in_while:
+            raise Unsupported("for loop with an early exit inside `while True`")
+        return self.do_for_exit(st, rest, env, k, mut)
+
+    @staticmethod
+    def early_exit(st):
+        return any(isinstance(x, (ast.Break, ast.Continue, ast.Return, ast.Try)) for s2 in st.body for x in ast.walk(s2))
+
+    def changes_items(self, st, env):
+        """does the body call an object-changing method on the loop variable (a loop over a list of objects)?"""
+        d = dotted(st.iter)
+        if d is None or d not in env or elem_type(env[d].type) not in OBJECTS:
+            return False
+        tag = elem_type(env[d].type)
+        muts = {m for m, sig in self.objmethods.get(tag, {}).items() if sig[2].startswith("mut")}
+        for x in ast.walk(st):
+            f = dotted(x.func) if isinstance(x, ast.Call) else None
+            if f and "." in f and f.rsplit(".", 1)[0] == st.target.id and f.rsplit(".", 1)[1] in muts:
+                return True
+        return False
+
+    def do_for_fold(self, st, rest, env, k):
+        """`for x in coll: body` without break / continue / return: a left fold.  State: the names assigned in the
+        body (first-assignment order of the function), pruned afterwards to those that are needed."""
+        tgt = st.target.id
+        coll, ity = self.loop_coll(st, env)
+        state = self.loop_names(st.body, tgt)
         item = self.new_id(self.lname(tgt))
 
         def run(benv, ids, types):
-            benv[tgt] = V(("var", item), "int", False)
-            was, self.in_for = self.in_for, True
+            benv[tgt] = V(("var", item), ity, False)
+            leaf, was = self.leaf, self.cx
+            self.cx = Cx(was.levels + ("fold",), None, None, was.handler)
+            self.positive.append(coll[2] if coll[0] == "range" else None)
+            self.readonly_items.append(tgt)
             try:
-                return self.block(st.body, benv, lambda e: ("yield", self.leaf(e)))
+                return self.block(st.body, benv, lambda e: ("yield", leaf(e)))
             finally:
-                self.in_for = was
+                self.cx = was
+                self.positive.pop()
+                self.readonly_items.pop()
         ids, types, body = self.loop_state(state, env, run)
         env2 = dict(env)
         env2.pop(tgt, None)                    # python leaves the last item (or nothing) in it: reading it is rejected
@@ -1207,7 +1700,76 @@ class Fn:
                 inits.append(DEFAULT_IR[types[d]])
             env2[d] = V(("var", o), types[d], d not in env or env[d].unbound)
         return ("letfold", outs, [ids[d] for d in state], item, [types[d] for d in state], body, inits, coll,
-                self.block(rest, env2, k))
+                self.block(rest, env2, k), ity)
+
+    def do_for_exit(self, st, rest, env, k, mut):
+        """`for x in coll: body` with break / continue / return, or with an exception that can leave it: the loop
+        combinator `GenRt.forLoop coll init (fun state x => body) (fun state => rest)`.  The body answers a `Step`:
+        `next state` where an iteration ends (or `continue`), `brk state` for `break`, `ret a` where the FUNCTION answers a.
+
+        mut: the body changes the items of the list attribute L it iterates over (`reader.read(data)`):
+        `GenRt.forLoopMut`.  An iteration also answers its item as it is now, and what follows the loop gets the list
+        with the items visited so far replaced.  Inside the body L itself is not available (reading / re-binding it is
+        rejected), except `L.clear()`: it sets the flag `$clr:L` of the state; Python's list iterator then finds the
+        list empty, so an iteration that ends with the flag set ends the loop, and L is `[]` afterwards."""
+        tgt = st.target.id
+        L = dotted(st.iter)
+        coll, ity = self.loop_coll(st, env)
+        if mut:
+            if L not in self.mutates or L in self.detached:
+                raise Unsupported(f"the loop changes the items of {L}, which is not an attribute of the state")
+            env = self.assign("$clr:" + L, FALSE, "bool", env)
+            self.detached[L] = tgt
+            self.mutloops.append((tgt, L, st))
+        try:
+            state = self.loop_names(st.body, tgt)
+            if mut and "$clr:" + L not in state:
+                state.append("$clr:" + L)
+            item = self.new_id(self.lname(tgt))
+
+            def run(benv, ids, types):
+                benv[tgt] = V(("var", item), ity, False)
+                leaf, was = self.leaf, self.cx
+                it = (lambda e: e[tgt].ir) if mut else (lambda e: None)
+
+                def nxt(e):
+                    if mut:                    # the list was cleared: the iterator is exhausted
+                        return mk_ite(e["$clr:" + L].ir, ("brk", leaf(e), it(e)), ("next", leaf(e), it(e)))
+                    return ("next", leaf(e), None)
+                self.cx = Cx(was.levels + ("mut" if mut else "exit",), lambda e: ("brk", leaf(e), it(e)), nxt, was.handler)
+                self.positive.append(coll[2] if coll[0] == "range" else None)
+                self.readonly_items.append(None if mut else tgt)
+                try:
+                    return self.block(st.body, benv, nxt)
+                finally:
+                    self.cx = was
+                    self.positive.pop()
+                    self.readonly_items.pop()
+            ids, types, body = self.loop_state(state, env, run)
+        finally:
+            if mut:
+                del self.detached[L]
+                self.mutloops.pop()
+        env2 = dict(env)
+        env2.pop(tgt, None)
+        for x in ast.walk(st):
+            if isinstance(x, ast.For) and isinstance(x.target, ast.Name):
+                env2.pop(x.target.id, None)
+        outs = [self.new_id(self.lname(d)) for d in state]
+        inits = []
+        for d, o in zip(state, outs):
+            if d in env:
+                inits.append(self.coerce(env[d].ir, env[d].type, types[d]))
+            else:
+                inits.append(DEFAULT_IR[types[d]])
+            env2[d] = V(("var", o), types[d], d not in env or env[d].unbound)
+        lst = None
+        if mut:
+            lst = self.new_id(self.lname(L))
+            env2[L] = V(mk_ite(env2["$clr:" + L].ir, nil_of(env[L].type), ("var", lst)), env[L].type, False)
+            del env2["$clr:" + L]
+        return ("letloop", outs, [ids[d] for d in state], item, [types[d] for d in state], body, inits, coll,
+                self.block(rest, env2, k), lst, ity)
 
     def do_while(self, st, env):
         """`while True:` without break/continue (so whatever follows it is never reached from the loop).  The loop becomes an
@@ -1226,7 +1788,7 @@ class Fn:
             raise Unsupported("break / continue / nested while in `while True`")
         if self.fuel is None:
             raise Unsupported("`while True` in a function without a configured fuel")
-        if self.in_for or self.in_while:
+        if self.cx.levels or self.in_while:
             raise Unsupported("`while True` inside another loop")
         state = [d for d in self.order if d not in self.loop_targets]
         name = f"{self.name}.loop{len(self.aux) + 1}"
@@ -1234,8 +1796,9 @@ class Fn:
 
         def run(benv, ids, types):
             self.in_while = True
+            leaf = self.leaf
             try:
-                return self.block(st.body, benv, lambda e: ("app", f"{name} {pargs} oof fuel", self.leaf(e)))
+                return self.block(st.body, benv, lambda e: ("app", f"{name} {pargs} oof fuel", leaf(e)))
             finally:
                 self.in_while = False
         ids, types, body = self.loop_state(state, env, run)
@@ -1251,25 +1814,44 @@ class Fn:
     leaf = None
 
     # ---------------------------------------------------------------- dead state
-    def project(self, body, keep):
-        """the body of a fold with only the components `keep` of its state"""
+    def project(self, body, keep, depth=0):
+        """the body of a fold / loop with only the components `keep` of its state (depth: inside that many inner loops
+        with early exits, whose own `next` / `brk` are not ours, and whose `ret` carries a value of the level outside)"""
         t = body[0]
         if t == "yield":
-            return ("yield", [body[1][j] for j in keep])
+            return ("yield", [body[1][j] for j in keep]) if depth == 0 else body
+        if t in ("next", "brk"):
+            return (t, [body[1][j] for j in keep], body[2]) if depth == 0 else body
+        if t == "retn":
+            return body if depth == 0 else ("retn", self.project(body[1], keep, depth - 1))
         if t == "ite":
-            return mk_ite(body[1], self.project(body[2], keep), self.project(body[3], keep))
-        if t == "letfold":
-            return body[:8] + (self.project(body[8], keep),)
+            return mk_ite(body[1], self.project(body[2], keep, depth), self.project(body[3], keep, depth))
+        if t == "mopt":
+            return body[:3] + (self.project(body[3], keep, depth), self.project(body[4], keep, depth))
+        if t == "mexc":
+            return body[:3] + (self.project(body[3], keep, depth), body[4], self.project(body[5], keep, depth))
+        if t == "letfold":                     # (the body of an inner fold has no exits)
+            return body[:8] + (self.project(body[8], keep, depth),) + body[9:]
+        if t == "letloop":
+            return body[:5] + (self.project(body[5], keep, depth + 1),) + body[6:8] + (self.project(body[8], keep, depth),) + body[9:]
+        if depth > 0:
+            return body                        # a value of the function (inside `ret`)
         raise Unsupported("internal: fold body")
 
     def prune(self, e):
-        """drop the components of fold states that nothing needs (and folds that nothing needs)"""
+        """drop the components of fold / loop states that nothing needs (and folds that nothing needs)"""
         t = e[0]
         if t == "ite":
             return mk_ite(e[1], self.prune(e[2]), self.prune(e[3]))
-        if t != "letfold":
+        if t == "mopt":
+            return e[:3] + (self.prune(e[3]), self.prune(e[4]))
+        if t == "mexc":
+            return e[:3] + (self.prune(e[3]), e[4], self.prune(e[5]))
+        if t == "retn":
+            return ("retn", self.prune(e[1]))
+        if t not in ("letfold", "letloop"):
             return e
-        _, outs, ins, item, types, body, inits, coll, rest = e
+        outs, ins, item, types, body, inits, coll, rest = e[1:9]
         rest = self.prune(rest)
         used = uses(rest)
         keep = [j for j, o in enumerate(outs) if o in used]
@@ -1280,10 +1862,10 @@ class Fn:
             if not more:
                 break
             keep = sorted(keep + more)
-        if not keep:
+        if not keep and t == "letfold":
             return rest
         pick = lambda xs: [xs[j] for j in keep]
-        return ("letfold", pick(outs), pick(ins), item, pick(types), pbody, pick(inits), coll, rest)
+        return (t, pick(outs), pick(ins), item, pick(types), pbody, pick(inits), coll, rest) + e[9:]
 
     # ---------------------------------------------------------------- printing
     def name_binders(self, e, taken, names):
@@ -1299,13 +1881,28 @@ class Fn:
         if t == "ite":
             self.name_binders(e[2], taken, names)
             self.name_binders(e[3], taken, names)
-        if t != "letfold":
+        if t == "retn":
+            self.name_binders(e[1], taken, names)
+        if t == "mopt":
+            names[e[2]] = fresh(self.hints[e[2]])
+            self.name_binders(e[3], taken, names)
+            self.name_binders(e[4], taken, names)
+        if t == "mexc":
+            names[e[2]] = fresh(self.hints[e[2]]) if e[2] in uses(e[3]) else "_"
+            names[e[4]] = fresh(self.hints[e[4]])
+            self.name_binders(e[3], taken, names)
+            self.name_binders(e[5], taken, names)
+        if t not in ("letfold", "letloop"):
             return
-        _, outs, ins, item, types, body, inits, coll, rest = e
+        outs, ins, item, types, body, inits, coll, rest = e[1:9]
         n = len(outs)
         ub = uses(body)
         names[item] = fresh(self.hints[item]) if item in ub else "_"
-        if n == 1:
+        if t == "letloop" and e[9] is not None:
+            names[e[9]] = fresh(self.hints[e[9]])
+        if n == 0:
+            pass
+        elif n == 1:
             names[outs[0]] = fresh(self.hints[outs[0]])
             names[ins[0]] = fresh(self.hints[ins[0]]) if ins[0] in ub else "_"
         else:
@@ -1321,20 +1918,32 @@ class Fn:
         """Lean text (lines) of a statement-position term"""
         pad = "  " * ind
         t = e[0]
-        if t == "letfold":
-            _, outs, ins, item, types, body, inits, coll, rest = e
+        if t in ("letfold", "letloop"):
+            outs, ins, item, types, body, inits, coll, rest = e[1:9]
             n = len(outs)
-            ty = " × ".join(LEAN_TY[x] for x in types)
+            ty = " × ".join(LEAN_TY[x] for x in types) if n else "Unit"
+            ity = LEAN_TY[e[-1]]
             res = []
-            if n == 1:
+            if n == 0:
+                sname = rname = "_"
+            elif n == 1:
                 sname, rname = names[ins[0]], names[outs[0]]
             else:
                 sname, rname = names[("tuple", ins[0])], names[("tuple", outs[0])]
                 res.append(f"{pad}-- {sname}, {rname} = (" + ", ".join(self.hints[i] for i in ins) + ")")
             blines = self.lines(body, names, ind + 2)
-            init = show(("tuple", inits), names)
-            head = f"{pad}let {rname} := List.foldl (fun ({sname} : {ty}) ({names[item]} : Nat) =>"
-            tail = f") {init if atomic(init) else '(' + init + ')'} {show(coll, names)}"
+            init = show(("tuple", inits), names) if n else "()"
+            init = init if atomic(init) else "(" + init + ")"
+            if t == "letloop":
+                # GenRt.forLoop / forLoopMut <list> <initial state> (fun state item => body) (fun [list] state => rest)
+                mut = e[9] is not None
+                res.append(f"{pad}(Amshan.GenRt.forLoop{'Mut' if mut else ''} {show(coll, names)} {init} (fun ({sname} : {ty}) ({names[item]} : {ity}) =>")
+                res += blines
+                res.append(f"{pad}  ) (fun " + (f"({names[e[9]]} : List {ity if atomic(ity) else '(' + ity + ')'}) " if mut else "") + f"({rname} : {ty}) =>")
+                rl = self.lines(rest, names, ind + 2)
+                return res + rl[:-1] + [rl[-1] + "))"]
+            head = f"{pad}let {rname} := List.foldl (fun ({sname} : {ty}) ({names[item]} : {ity}) =>"
+            tail = f") {init} {show(coll, names)}"
             if len(blines) == 1 and len(head) + len(blines[0].strip()) + len(tail) < 150:
                 res.append(f"{head} {blines[0].strip()}{tail}")
             else:
@@ -1343,10 +1952,25 @@ class Fn:
         if t == "ite" and (size(e) > 40 or self.has_fold(e)):
             return ([f"{pad}if {show(e[1], names)} then"] + self.lines(e[2], names, ind + 1)
                     + [f"{pad}else"] + self.lines(e[3], names, ind + 1))
+        if t == "mopt":
+            some = self.lines(e[3], names, ind + 2)
+            none = self.lines(e[4], names, ind + 2)
+            return ([f"{pad}(match {show(e[1], names)} with", f"{pad}  | some {names[e[2]]} =>"] + some
+                    + [f"{pad}  | none =>"] + none[:-1] + [none[-1] + ")"])
+        if t == "mexc":
+            ok = self.lines(e[3], names, ind + 2)
+            err = self.lines(e[5], names, ind + 2)
+            return ([f"{pad}(match {show(e[1], names)} with", f"{pad}  | Except.ok {names[e[2]]} =>"] + ok
+                    + [f"{pad}  | Except.error {names[e[4]]} =>"] + err[:-1] + [err[-1] + ")"])
+        if t == "retn" and self.has_fold(e[1]):
+            inner = self.lines(e[1], names, ind + 1)
+            return [f"{pad}(Amshan.GenRt.Step.ret ("] + inner[:-1] + [inner[-1] + "))"]
         return [pad + show(e, names)]
 
     def has_fold(self, e):
-        return e[0] == "letfold" or (e[0] == "ite" and (self.has_fold(e[2]) or self.has_fold(e[3])))
+        """must the term be printed as a block (it holds a loop or a match)?"""
+        return (e[0] in ("letfold", "letloop", "mopt", "mexc") or (e[0] == "ite" and (self.has_fold(e[2]) or self.has_fold(e[3])))
+                or (e[0] == "retn" and self.has_fold(e[1])))
 
     def reserved(self):
         words = {"s", "r", "fuel", "oof", "some", "none", "true", "false", "max", "min", "decide", "List", "Nat", "Bool",
@@ -1360,6 +1984,9 @@ class Fn:
                 words.update(re.findall(r"[A-Za-z_]\w*", lean))
         for lean, _, _ in self.callfns.values():
             words.update(re.findall(r"[A-Za-z_]\w*", lean))
+        for tab in self.tables.values():
+            words.update(re.findall(r"[A-Za-z_]\w*", tab["len"] + " " + " ".join(c[0] for c in tab["cols"] if c)))
+        words.update(re.findall(r"[A-Za-z_]\w*", (self.catch or "") + " " + self.tparams))
         return words
 
     def translate(self):
@@ -1379,7 +2006,8 @@ class Fn:
             entry = mk_proj(("const", self.record[1]), lean) if self.record else ("const", lean + "0")
             env[py] = V(entry, t, False)
         for g in self.ghosts:
-            env["$" + g] = V(FALSE, "bool", False)
+            gt = self.ghost_types[g]
+            env["$" + g] = V(FALSE if gt == "bool" else nil_of(gt), gt, False)
         for py, (lean, t) in self.mapping.items():
             if "." not in py and py != "self":         # a python parameter: may be assigned
                 env[py] = V(("const", lean), t, False)
@@ -1390,10 +2018,29 @@ class Fn:
         self.order = [d for d in self.mutates if d in self.order] + [d for d in self.order if d not in self.mutates]
         self.loop_targets = {x.target.id for x in ast.walk(fn) if isinstance(x, ast.For) and isinstance(x.target, ast.Name)}
         self.appends = any(isinstance(x, ast.Call) and (dotted(x.func) or "").endswith((".append", ".clear")) for x in ast.walk(fn))
+        # the lists that are changed in place: a second name for one of them is rejected (every group of names for one
+        # list that holds such a name is formed by an assignment that mentions it)
+        self.appended = {dotted(x.func).rsplit(".", 1)[0] for x in ast.walk(fn)
+                         if isinstance(x, ast.Call) and (dotted(x.func) or "").endswith((".append", ".clear"))}
+        if any(isinstance(x, ast.Call) and dotted(x.func) in self.selfcalls for x in ast.walk(fn)):
+            self.appended |= {d for d, (_, t) in self.mutates.items() if elem_type(t) is not None}      # (by a callee)
         # may an object be changed in place (by a method of it, or by another method of `self`)?
-        muts = {"." + m for ms in self.objmethods.values() for m, sig in ms.items() if sig[2] == "mut"}
+        muts = {"." + m for ms in self.objmethods.values() for m, sig in ms.items() if sig[2].startswith("mut")}
         self.inplace = any(isinstance(x, ast.Call) and ((dotted(x.func) or "") in self.selfcalls or (dotted(x.func) or "").endswith(tuple(muts) or ("\0",)))
                            for x in ast.walk(fn))
+        self.cx = Cx((), None, None, None)
+        self.detached, self.mutloops, self.positive, self.readonly_items = {}, [], [], []
+        self.following = {}                    # id of a statement -> the statements after it in its block
+        for x in ast.walk(fn):
+            for field in ("body", "orelse", "finalbody"):
+                blk = getattr(x, field, None)
+                if isinstance(blk, list):
+                    for j, y in enumerate(blk):
+                        self.following[id(y)] = blk[j + 1:]
+        if any(isinstance(x, ast.Name) and x.id == "_" and isinstance(x.ctx, ast.Load) for x in ast.walk(fn)):
+            raise Unsupported("the name _ is read")
+        if sum(isinstance(x, ast.Try) for x in ast.walk(fn)) > 1:
+            raise Unsupported("more than one try statement (the configured except clause stands for one)")
         for f in self.once:
             sites = [x for x in ast.walk(fn) if isinstance(x, (ast.Call, ast.Attribute)) and dotted(x) == f]
             loops = [y for x in ast.walk(fn) if isinstance(x, (ast.For, ast.While)) for y in ast.walk(x) if dotted(y) == f]
@@ -1404,9 +2051,9 @@ class Fn:
             if self.mutates or self.ghosts:
                 if self.pyret is not None and self.pyret not in OPT_BASE:
                     raise Unsupported("the function can end without a return")
-                return self.do_return(None, e)
+                return self.answer(self.do_return(None, e))
             if self.ret_tag() in OPT_BASE:             # falling off the end answers None
-                return NONE
+                return self.answer(NONE)
             raise Unsupported("the function can end without a return")
         ir = self.prune(self.block(fn.body, env, end))
         if size(ir) > MAX_SIZE:
@@ -1431,7 +2078,7 @@ class Fn:
             out.append("\n".join(head + ["  | fuel + 1, " + ", ".join(names[i] for i in ids) + " =>"] + self.lines(body, names, 2)))
         names = {}
         self.name_binders(ir, taken, names)
-        head = f"def {self.name} " + " ".join(f"({n} : {t})" for n, t in self.params) + f" : {self.ret} :="
+        head = f"def {self.name} " + (self.tparams + " " if self.tparams else "") + " ".join(f"({n} : {t})" for n, t in self.params) + f" : {self.ret} :="
         out.append("\n".join([head] + self.lines(ir, names, 1)))
         return "\n\n".join(out)
 
@@ -1441,6 +2088,8 @@ def generate(han):
     # attribute look-ups through _Safe never raise: a function the changed source no longer has becomes a _Missing
     # object, whose translation is reported as a problem (and a stub) for that one function only
     ffc, hdlc, dlde, mc = (_Safe(han[k], k) for k in ("fastframecheck", "hdlc", "dlde", "meter_connection"))
+    if "common" not in han:
+        han = dict(han, common=__import__("importlib").import_module("han.common"))
     F = ffc.FastFrameCheckSequence16
     H = hdlc.HdlcFrameHeader
     HF = hdlc.HdlcFrame
@@ -1450,7 +2099,7 @@ def generate(han):
     frame = {"self._frame": ("data", "list"), "self._frame.as_bytes": ("data", "list")}
     hdr = {**frame, "self._control_position": ("controlPosition", "optint")}                      # inside HdlcFrameHeader
     adr = {"self._get_address": ("hdlcGetAddress data", ["int"], "optlist")}
-    frm = {"self": ("data", "list"), "self._frame_data": ("data", "list")}                         # inside HdlcFrame (len(self))
+    frm = {"self": ("data", "list"), "self._frame_data": ("data", "list"), "self.as_bytes": ("data", "list")}                         # inside HdlcFrame (len(self))
     infopos = {"self._header.information_position": ("(hdlcInformationPosition controlPosition)", "optint")}
     fns = [
         Fn("computeFcsTable", ffc._compute_fcs_16_crc_table, [], "List Nat"),
@@ -1542,12 +2191,57 @@ def generate(han):
                 ghosts=["trimmed"], effects=trim, pyret="bool", selfcalls={**rcalls, "self._handle_flag_sequence": r_flag},
                 calls={"self._buffer.pop": ("octet", "int")}, once=["self._buffer.pop"], **robj)
     reader = [r_append, r_start, r_hunt, r_flag, r_next]
-    groups = {"Fcs": fns[0:5], "BackOff": fns[5:9], "P1": fns[9:10], "Hdlc": fns[10:], "HdlcReader": reader}
+    # ---- AutoDecoder: the rotation over the decoder table.  Generic like the model: the table is the parameter `decs`
+    # (opaque callables α → Except PyExc β: `decoder(payload)` may raise), the except clause is the parameter `caught`
+    # (its class list is data: Gen.caughtPayload), `self.__previous_success` is the state (its value on entry: prev0).
+    auto = []
+    if "autodecoder" in han:
+        A = _Safe(han["autodecoder"], "autodecoder").AutoDecoder
+        register_object("payload", "α")
+        register_object("decoded", "β")
+        register_object("decoder", "Auto.Decoder α β")
+        register_object("str", "String")
+        acfg = dict(tparams="{α β : Type}", raises=True, catch="caught",
+                    objmethods={"decoder": {"__call__": ("", ["payload"], "raises:decoded")}},
+                    tables={"AutoDecoder.payload_decoder_functions": {"len": "decs.length", "cols": [None, ("decs", "decoder")]}})
+        auto = [Fn("autoDecodeMessagePayload", A.decode_message_payload,
+                   [("decs", "List (Auto.Decoder α β)"), ("caught", "PyExc → Bool"), ("prev0", "Option Nat"), ("payload", "α")],
+                   "Except PyExc (Option Nat × Option β)", mapping={"payload": ("payload", "payload")},
+                   mutates={"self.__previous_success": ("prev", "optint")}, pyret="optdecoded", **acfg),
+                Fn("autoPreviousSuccessDecoder", unwrap_fn(A.previous_success_decoder), [("names", "List String"), ("prev", "Option Nat")],
+                   "Except PyExc (Option String)", mapping={"self.__previous_success": ("prev", "optint")}, pyret="optstr", raises=True,
+                   tables={"AutoDecoder.payload_decoder_functions": {"len": "names.length", "cols": [("names", "str"), None]}})]
+    # ---- SmartMeterBaseProtocol.data_received: the selection among the candidate readers.  Generic like the model: a
+    # reader is an opaque object with state (`reader.read(data)` changes it and answers a list of messages:
+    # `Rd.feed`), a message an opaque object with `is_valid` / `payload`.  `self` is the record PyState
+    # (_selected_reader, _reader_candidates); `self.message_received(msg)` (abstract here) is RECORDED: the answer is
+    # (state afterwards, the messages forwarded, in order).  `if self._selected_reader:` is `is not None`: a reader is
+    # always true (checked below: neither __bool__ nor __len__ in the reader classes).  The two concrete
+    # `message_received` are translated with `self.queue.put_nowait(x)` recorded the same way.
+    MB, MR1, MR2 = _Safe(han["common"], "common").MeterReaderBase, hdlc.HdlcFrameReader, dlde.ModeDReader
+    plain = all(isinstance(getattr(c, m, None), _Missing) for c in (MB, MR1, MR2) for m in ("__bool__", "__len__"))
+    register_object("rd", "Rd", truthy=plain)
+    register_object("msg", "Msg")
+    pobj = {"rd": {"read": ("Rd.feed", ["list"], "mut:list:msg")},
+            "msg": {"is_valid": ("Msg.valid", [], "bool"), "payload": ("Msg.payload", [], "optlist")}}
+    proto = [Fn("protoDataReceived", mc.SmartMeterBaseProtocol.data_received, [("s", "PyState"), ("data", "List Nat")], "PyState × List Msg",
+                mapping={"data": ("data", "list")}, record=("PyState", "s"),
+                mutates={"self._selected_reader": ("selected", "optrd"), "self._reader_candidates": ("candidates", "list:rd")},
+                ghosts=[("forwarded", "list:msg")], effects={"self.message_received": "forwarded"}, objmethods=pobj),
+             Fn("protoMessageReceived", mc.SmartMeterMessageProtocol.message_received, [("message", "Msg")], "List Msg",
+                mapping={"message": ("message", "msg")}, ghosts=[("queue", "list:msg")], effects={"self.queue.put_nowait": "queue"}, objmethods=pobj),
+             Fn("protoPayloadReceived", mc.SmartMeterMessagePayloadProtocol.message_received, [("message", "Msg")], "List (List Nat)",
+                mapping={"message": ("message", "msg")}, ghosts=[("queue", "list:list")], effects={"self.queue.put_nowait": "queue"}, objmethods=pobj)]
+    groups = {"Fcs": fns[0:5], "BackOff": fns[5:9], "P1": fns[9:10], "Hdlc": fns[10:], "HdlcReader": reader, "Auto": auto, "Proto": proto}
     # what a group's file needs besides Amshan.Generated: (imports, lines after `namespace Amshan.GenCode`)
-    extra = {"HdlcReader": (["import Amshan.Model.Hdlc"], ["open Amshan.Hdlc", ""])}
+    extra = {"HdlcReader": (["import Amshan.Model.Hdlc"], ["open Amshan.Hdlc", ""]),
+             "Auto": (["import Amshan.GenRuntime", "import Amshan.Model.AutoDecoder"], []),
+             "Proto": (["import Amshan.GenRuntime", "import Amshan.Model.ProtocolState"], ["open Amshan.Proto", ""])}
     problems = []
     files = {}
     for g, gfns in groups.items():
+        if not gfns:
+            continue
         out = ["/- GENERATED by harness/pytrans.py from the current /repo working tree (mechanical translation of Python",
                "   function bodies). Do not edit. Props/*Gen.lean prove these equal to the hand-written models.",
                "   One file per property group, so that a change to one function cannot break another group's proofs. -/",
